@@ -187,6 +187,99 @@ def c02_judge(tier, batches, results, cov, judged):
     return out
 
 
+# ----------------------------------------------------------------------------- C07 / C03
+ALPHAS7 = [9.313225746154785e-10, 7.450580596923828e-09, 2.98023223876953125e-08, 7.18e-9, 4.76837158203125e-07, 3.0517578125e-05, 2.44e-5, 0.0009765625, 0.012467, 0.03125]
+
+
+def c07_batches(tier):
+    q = tier == "quick"
+    bs = []
+    for be in BACKENDS:
+        for var in ("optim", "debug"):
+            bs.append(B("rand-swarm-%s-%s" % (be, var), "rand", be, var, (90 if q else 3000) * (1 if var == "optim" else 0.5), spec="swarm:24", nops=5, weight=20 if q else 200))
+    for spec in ("P128", "P80"):
+        for be in (["spqlios-fma"] if q else BACKENDS):
+            bs.append(B("rand-%s-%s-optim" % (spec, be), "rand", be, "optim", 2 if q else 10, spec=spec, ops="keys,gate", nops=3, weight=100 if q else 300, det_count=1,
+                        max_procs=2 if q else 5))
+    return bs
+
+
+def c07_judge(tier, batches, results, cov, judged):
+    out = []
+    st = {}
+    for pb in cov["per_batch"]:
+        for k, v in pb["stats"].items():
+            st[k] = st.get(k, 0.0) + v
+    keys = sorted(set(k.rsplit(".", 1)[0] for k in st if k.startswith("z.")))
+    for key in keys:
+        n = st.get(key + ".n", 0)
+        parts = key.split(".")
+        kind = parts[1]
+        if kind in ("lwe", "tlwe", "tgsw"):
+            alpha = ALPHAS7[int(parts[2])]
+        elif kind == "gate":
+            alpha = {"P128": 2.0 ** -15, "P80": 2.44e-5}.get(parts[2])
+            if alpha is None:
+                continue   # swarm sets: mixture of noise levels (already normalised per sample, judged below with alpha unknown -> skip discretisation terms)
+        else:
+            alpha = float(".".join(parts[3:]))
+        if n < 5000 or alpha <= 0:
+            judged[key] = {"n": int(n), "judged": False}
+            continue
+        su = alpha * 4294967296.0
+        mean = st[key + ".s1"] / n
+        var = st[key + ".s2"] / n - mean * mean
+        kurt = (st[key + ".s4"] / n) / (var * var) - 3 if var > 0 else 0.0
+        c = 1.5 if kind in ("tlwe", "tgsw", "bkrow") else 0.0   # rounding of the FFT product inside TLWE encryption (measured 0.6 unit^2)
+        lo = max(0.0, 1 - 0.8 / su + 1 / (3 * su * su))          # sampler truncates towards zero
+        hi = 1 + (1.0 / 12 + c) / (su * su)                      # round-to-nearest model (+ FFT rounding)
+        se = max(var, 1e-9) * math.sqrt((2.0 + max(kurt, 0.0)) / n)
+        ok_var = lo - 8 * se <= var <= hi + 8 * se
+        ok_mean = abs(mean) <= 8 * math.sqrt(max(var, 1e-12) / n) + 0.5 / su
+        ok_kurt = su < 64 or abs(kurt) <= 8 * math.sqrt(24.0 / n) + 0.02 + 2.0 / su   # floor: discretisation and FFT-rounding mixture
+        judged[key] = {"n": int(n), "alpha": alpha, "mean_z": mean, "var_z": var, "excess_kurtosis": kurt, "accept_var": [lo - 8 * se, hi + 8 * se], "judged": True}
+        if not ok_var:
+            out.append({"oracle": "C07.variance", "detail": "%s: variance of phase error / alpha^2 = %.4f outside [%.4f, %.4f] (alpha=%.3g, n=%d)" % (key, var, lo - 8 * se, hi + 8 * se, alpha, n)})
+        if not ok_mean:
+            out.append({"oracle": "C07.mean", "detail": "%s: mean phase error %.4f alpha is not centred (n=%d)" % (key, mean, n)})
+        if not ok_kurt:
+            out.append({"oracle": "C07.kurtosis", "detail": "%s: excess kurtosis %.3f (n=%d): not gaussian" % (key, kurt, n)})
+    for mk in sorted(set(k.rsplit(".", 1)[0] for k in st if k.startswith("mask."))):
+        words = st.get(mk + ".words", 0)
+        if words < 20000:
+            continue
+        exp = words * 4 / 256.0
+        chi2 = sum((st.get("%s.h%d" % (mk, b), 0.0) - exp) ** 2 / exp for b in range(256))
+        lagn = st.get(mk + ".lagn", 0)
+        lags = [(st.get("%s.lag%d" % (mk, k), 0.0) / max(lagn, 1)) * 3.0 for k in (1, 2, 3, 4)]
+        judged[mk] = {"words": int(words), "chi2_bytes": chi2, "lag_correlations": lags, "judged": True}
+        if chi2 > 255 + 8 * math.sqrt(510):
+            out.append({"oracle": "C07.mask-uniform", "detail": "%s: byte histogram chi^2 = %.1f (255 dof) over %d mask words" % (mk, chi2, words)})
+        for k, cval in enumerate(lags):
+            if lagn > 1000 and abs(cval) > 8 / math.sqrt(lagn):
+                out.append({"oracle": "C07.mask-correlation", "detail": "%s: lag-%d correlation %.4f over %d words" % (mk, k + 1, cval, lagn)})
+    for kb in ("keybits.lwe", "keybits.ring"):
+        n = st.get(kb + ".n", 0)
+        if n >= 2000:
+            f = st[kb + ".ones"] / n
+            judged[kb] = {"bits": int(n), "fraction_ones": f, "judged": True}
+            if abs(f - 0.5) > 8 * 0.5 / math.sqrt(n):
+                out.append({"oracle": "C07.key-balance", "detail": "%s: fraction of ones %.4f over %d bits" % (kb, f, n)})
+    return out
+
+
+def c03_batches(tier):
+    q = tier == "quick"
+    bs = []
+    for be in BACKENDS:
+        for var in ("optim", "debug"):
+            bs.append(B("enc-swarm-%s-%s" % (be, var), "enc", be, var, (150 if q else 4000) * (1 if var == "optim" else 0.5), spec="swarm:24", specpool=6, nkeys=2, nops=8,
+                        weight=20 if q else 200))
+    for spec in ("P128", "P80"):
+        bs.append(B("enc-%s" % spec, "enc", "spqlios-fma", "optim", 6 if q else 60, spec=spec, nkeys=1, ops="gate", nops=4, weight=60, det_count=1, max_procs=2 if q else 6))
+    return bs
+
+
 # ----------------------------------------------------------------------------- C04 / C08 / C09 / C15 (lower-level clients)
 def low_batches(tier, ops, name, cnt_q, cnt_t, with_gates=True, default_ops=None, limit_nayuki_debug=False):
     q = tier == "quick"
@@ -379,6 +472,42 @@ RECIPES = {
                       "estimator sigma (8 for class comparisons); on the tree the stdev sits 12-16 % under the bounds, so a noise increase below "
                       "about 20 % is not detected. Quick judges spqlios-fma/optim only; thorough judges all 20 configurations.",
         "assumptions": ["bounds 0.0037 / 0.0047 (x1.35 for MUX) are the property's own numbers"],
+    },
+    "C03": {
+        "level": "exploration",
+        "batches": c03_batches,
+        "oracles": ["C03."],
+        "rule": "one run = 8 seeded client round trips among {gate bits, LWE, TLWE constant, TLWE polynomial, TGSW, noiseless trivial samples under "
+                "two unrelated keys}; Msize from {2..64 (all messages), powers of two up to 2^14, arbitrary up to 32767, a list incl. 3,5,6,7,10,12,"
+                "100,1000}; noise at the admissible maximum Msize*alpha = 1/20, half of it, or tiny (TGSW: alpha <= 1/(20 Bg), the digit of "
+                "1/Msize multiplies the row noise); n in 1..40 or 630, k in {1,2}, N = 1024; optional wire trip. non-trivial = every run",
+        "technique": "deterministic simulation: seeded client round trips (encrypt -> optional wire -> decrypt) with noise drawn from the library "
+                     "generator at the admissible maximum; exact-equality oracle",
+        "level_text": "Seeded exploration (narrow): returned message == encrypted message exactly, for seeded keys, noise draws and message spaces; "
+                      "all messages for Msize <= 64.",
+        "level_note": "N = 1024 is the only ring degree the back-ends support; larger Msize is sampled; at Msize*alpha = 1/20 a decryption failure "
+                      "is a 10 sigma event, so a failure is a bug and not bad luck.",
+        "assumptions": ["10 sigma margin: false-alarm probability < 1e-22 per decryption"],
+    },
+    "C07": {
+        "level": "exploration",
+        "batches": c07_batches,
+        "judge": c07_judge,
+        "oracles": ["C07."],
+        "rule": "one run = 5 seeded operations among: reseed experiment (same seed => identical exported secret key set and ciphertexts, on the same "
+                "or another thread, after a history of 0..7 extra encryptions i.e. odd and even numbers of Gaussian draws; another seed => "
+                "different), fresh LWE/TLWE/TGSW/gate encryptions over an alpha sweep 2^-30..2^-5, statistics of EVERY row of a freshly generated "
+                "key-switching and bootstrapping key (a new key per run), key-bit balance; the entropy/time watchdog brackets every call. "
+                "Sums are merged over runs and judged on >= 5000 values. non-trivial = every run",
+        "technique": "deterministic simulation of the randomness seam (the library's single seedable generator): reseed-and-replay experiments with "
+                     "an entropy/time watchdog, plus observer-side noise statistics computed with the secret keys",
+        "level_text": "Seeded exploration: byte-identical replay under re-seeding (the same experiment that proves the simulator's own replayability), "
+                      "and 8-sigma acceptance regions for mean, variance (between the truncate-toward-zero and round-to-nearest discretisations, "
+                      "lower bound included: noise that is too small is a security failure), kurtosis, mask byte histogram and lag correlation, "
+                      "recentring of key-switching noise, trivial h=0 rows, binary balanced keys.",
+        "level_note": "Statistical oracles cannot see deviations below their stated widths (about 3 % in variance for 10^5 values). TLWE-type "
+                      "noise includes the rounding of the FFT product used by the encryption (measured 0.6 unit^2), allowed for up to 1.5 unit^2.",
+        "assumptions": ["8 estimator sigma acceptance: false-alarm probability < 1e-14 per statistic"],
     },
     "C04": {
         "level": "exploration",
